@@ -6,6 +6,8 @@
 package ast
 
 import (
+	"reflect"
+
 	"github.com/spf13/cast"
 )
 
@@ -87,4 +89,60 @@ func DectDataType(val any) (any, DType) {
 	default:
 		return nil, Invalid
 	}
+}
+
+// ContainerReaches reports whether the list or map target is val itself or is
+// nested somewhere inside val. Storing val into target would then build a value
+// that contains itself, which no consumer of script values (formatting,
+// conversion to text, serialisation) can walk.
+func ContainerReaches(val, target any) bool {
+	tp := containerPointer(target)
+	if tp == 0 {
+		return false
+	}
+	seen := map[uintptr]bool{}
+	var walk func(v any) bool
+	walk = func(v any) bool {
+		p := containerPointer(v)
+		if p == 0 {
+			return false
+		}
+		if p == tp {
+			return true
+		}
+		if seen[p] {
+			return false
+		}
+		seen[p] = true
+		switch x := v.(type) {
+		case []any:
+			for _, e := range x {
+				if walk(e) {
+					return true
+				}
+			}
+		case map[string]any:
+			for _, e := range x {
+				if walk(e) {
+					return true
+				}
+			}
+		}
+		return false
+	}
+	return walk(val)
+}
+
+func containerPointer(v any) uintptr {
+	switch x := v.(type) {
+	case []any:
+		if len(x) > 0 {
+			return reflect.ValueOf(x).Pointer()
+		}
+	case map[string]any:
+		if x != nil {
+			return reflect.ValueOf(x).Pointer()
+		}
+	}
+	return 0
 }
